@@ -359,6 +359,53 @@ def nested_scenarios(prop, tier, seed, jobs):
     return len(sc), fail
 
 
+def held_child(shape, n, chords, seed, samples, timeout=600):
+    args = ["held", "--shape", shape, "--n", str(n), "--chords", str(chords), "--seed", str(seed), "--samples", str(samples)]
+    try:
+        r = subprocess.run([D.BIN] + args, stdout=subprocess.PIPE, stderr=subprocess.PIPE, timeout=timeout)
+    except subprocess.TimeoutExpired:
+        return {"error": "timeout", "_code": None}
+    j = {"_code": r.returncode}
+    for line in r.stdout.decode(errors="replace").splitlines():
+        if line.startswith("{"):
+            j.update(json.loads(line))
+    return j
+
+
+def judge_held(prop, sc, j):
+    shape, n, chords, samples = sc
+    what = f"{shape} of {n} objects (+{chords} chords), fully recorded, one member held from outside while the main handle is released"
+    if j.get("type") != "held" or j["_code"] != 0:
+        return ("crash", "held-member-sweep-crashed", what + f": the process did not complete (code {j['_code']}, {j.get('error', 'no result')})")
+    for f in j["failures"]:
+        if prop == "C01" and f["destroyed_while_held"]:
+            return ("premature-destruction", "held-member-of-big-group", what + f": with member {f['held']} held, {f['destroyed_while_held']} objects were destroyed (or its count was wrong) although it reaches every member")
+        if prop == "C03" and not f["destroyed_while_held"] and (f["destroyed"] != n or f["double"]):
+            return ("not-collected", "held-member-of-big-group", what + f": after member {f['held']} was released too, {f['destroyed']} of {n} objects were destroyed ({f['double']} twice)")
+    return None
+
+
+def held_scenarios(prop, tier, seed, jobs):
+    """C01/C03 on worlds of 70..1000 objects: the random histories stay below about 120
+    objects, the big shapes only tear down."""
+    import concurrent.futures as cf
+    import random
+    rng = random.Random(seed * 2654435761 % 1000003)
+    sc = []
+    for n in [66, 70, 130, 260] + ([1000, 3000] if tier == "thorough" else []):
+        for shape in ("ring", "ring+skip2", "cliques", "mstar", "ring+self"):
+            m = n + rng.randrange(0, 9)
+            sc.append((shape, m, rng.choice([0, m, 2 * m]) if shape == "ring" else 0, 300))
+    sc.append(("clique", 70, 0, 70))
+    fail = None
+    with cf.ThreadPoolExecutor(max_workers=min(jobs, 8)) as ex:
+        for s, j in zip(sc, ex.map(lambda s: held_child(s[0], s[1], s[2], seed, s[3]), sc)):
+            v = judge_held(prop, s, j)
+            if v and not fail:
+                fail = (s, v)
+    return len(sc), fail
+
+
 def check(prop, tier, seed, jobs):
     if prop == "C15":
         return check_c15(tier, seed, jobs)
@@ -389,6 +436,17 @@ def replay(rec, path, quiet=False):
         return 0, {"type": "ok"}
     if rec.get("engine") == "afterbig":
         v = judge_after_big(after_big_child(rec["shape"], rec["n"], rec.get("seed", 1)))
+        if v:
+            if not quiet:
+                print(f"violation kind={v[0]} cause={v[1]} msg={v[2]}")
+                print(f"VIOLATION property={rec['property']} replay={path}")
+            return 1, {"type": "violation", "kind": v[0], "cause": v[1], "msg": v[2], "props": [rec["property"]]}
+        if not quiet:
+            print(f"replay of {path}: no violation")
+        return 0, {"type": "ok"}
+    if rec.get("engine") == "held":
+        sc = (rec["shape"], rec["n"], rec.get("chords", 0), rec.get("samples", 300))
+        v = judge_held(rec["property"], sc, held_child(sc[0], sc[1], sc[2], rec.get("seed", 1), sc[3]))
         if v:
             if not quiet:
                 print(f"violation kind={v[0]} cause={v[1]} msg={v[2]}")
